@@ -143,7 +143,9 @@ def run_calls(name: str, bounds, prec, rem, bs: int, seed: int, ncalls: int, rng
                 break
             out = np.asarray(out)
             same = before == sha(pts, losses) and np.array_equal(keep_p, pts) and np.array_equal(keep_l, losses, equal_nan=True)
-            ev = {"e": "sample", "cls": name, "bs": bs, "g": g, "rem": rem, "rows": int(out.shape[0]) if out.ndim == 2 else -1,
+            lo_b, up_b = np.asarray(space.parameters_bounds[0], dtype=float), np.asarray(space.parameters_bounds[1], dtype=float)
+            inb = bool(out.ndim == 2 and out.shape[1] == len(lo_b) and np.all(out >= lo_b - 1e-7) and np.all(out <= up_b + 1e-7))
+            ev = {"e": "sample", "cls": name, "bs": bs, "g": g, "rem": rem, "rows": int(out.shape[0]) if out.ndim == 2 else -1, "inbounds": inb,
                   "cols": int(out.shape[1]) if out.ndim == 2 else -1, "idx": to_units(out, grids) if out.ndim == 2 else [],
                   "histsame": bool(same), "call": c, "kw": _kw(kw), "bounds": bounds, "prec": prec, "seed": seed, "extreme": extreme,
                   "raw": out.tolist() if out.size <= 24 else None}
@@ -176,7 +178,7 @@ def _kw(kw: dict) -> dict:
 
 
 def strip(e: dict) -> dict:
-    keep = {"sample": ("e", "cls", "bs", "g", "rem", "rows", "cols", "idx", "histsame"),
+    keep = {"sample": ("e", "cls", "bs", "g", "rem", "rows", "cols", "idx", "histsame", "inbounds"),
             "bestbatch": ("e", "bs", "range", "g", "rem", "hist", "rank", "out"),
             "select": ("e", "bs", "preds", "sel", "fitsame", "predictsame")}.get(e["e"])
     return {k: e[k] for k in keep} if keep else {"e": e["e"]}
